@@ -16,8 +16,8 @@ Theorem C16_nearest_functional : forall s ty id r1 r2, nearest s ty id r1 -> nea
 Proof. exact nearest_functional. Qed.
 
 (* the walk terminates with an answer whenever parents are older than children *)
-Theorem C16_lookup_total : forall s ty, parents_older s ->
-  forall g id first, (id < g)%nat -> is_Some (nodes s !! id) -> exists r, use_ctx_from g ty id first s = Ok r s.
+Theorem C16_lookup_total : forall fx s ty, parents_older s ->
+  forall g id first, (id < g)%nat -> is_Some (nodes s !! id) -> exists r, use_ctx_from fx g ty id first s = Ok r s.
 Proof. exact use_ctx_from_total. Qed.
 
 Theorem C16_shadow_local : forall s ty id nd v,
